@@ -28,6 +28,7 @@ func (u *Unit) call(f *Frame, st *State, cc *ssa.CallCommon, res ssa.Value, pos 
 	if bi, ok := cc.Value.(*ssa.Builtin); ok {
 		return u.builtin(f, st, bi, cc, args, resTy, pos)
 	}
+	u.noteCalled(st, cc)
 	if cc.IsInvoke() {
 		recv := u.value(f, st, cc.Value)
 		key := u.ctx.ifaceKey(cc)
@@ -1125,4 +1126,68 @@ func (u *Unit) answerEvent(f *Frame, st *State, w, ev string, pos token.Pos) {
 		u.oblige(f, st, "single-answer", u.exprText(pos, "Write"), fmt.Sprintf("(not (= %s 3))", cur), pos)
 		st.answered[w] = u.em.define("answered", "Int", fmt.Sprintf("(ite (= %s 0) 1 %s)", cur, cur))
 	}
+}
+
+// noteCalled records, for the names a contract asks about with called(F), that a call of F is executed.
+func (u *Unit) noteCalled(st *State, cc *ssa.CallCommon) {
+	if u.calledNames == nil {
+		u.calledNames = map[string]bool{}
+		if u.con != nil {
+			var exprs []ast.Expr
+			for _, c := range u.con.Requires {
+				exprs = append(exprs, c.Expr)
+			}
+			for _, c := range u.con.Ensures {
+				exprs = append(exprs, c.Expr)
+			}
+			for _, c := range u.con.CallSites {
+				exprs = append(exprs, c.Clause.Expr)
+			}
+			for _, c := range u.con.Exits {
+				exprs = append(exprs, c.Clause.Expr)
+			}
+			for _, c := range u.con.StoreSites {
+				exprs = append(exprs, c.Clause.Expr)
+			}
+			for _, l := range u.con.Loops {
+				for _, c := range l.Invariants {
+					exprs = append(exprs, c.Expr)
+				}
+			}
+			for _, x := range exprs {
+				if x == nil {
+					continue
+				}
+				ast.Inspect(x, func(n ast.Node) bool {
+					if ce, ok := n.(*ast.CallExpr); ok {
+						if id, ok := ce.Fun.(*ast.Ident); ok && id.Name == "called" && len(ce.Args) == 1 {
+							switch a := ce.Args[0].(type) {
+							case *ast.Ident:
+								u.calledNames[a.Name] = true
+							case *ast.SelectorExpr:
+								u.calledNames[a.Sel.Name] = true
+							}
+						}
+					}
+					return true
+				})
+			}
+		}
+	}
+	if len(u.calledNames) == 0 {
+		return
+	}
+	name := ""
+	if cc.IsInvoke() {
+		name = cc.Method.Name()
+	} else if callee := cc.StaticCallee(); callee != nil {
+		name = callee.Name()
+	}
+	if name == "" || !u.calledNames[name] {
+		return
+	}
+	if st.answered == nil {
+		st.answered = map[string]string{}
+	}
+	st.answered["called:"+name] = "1"
 }
